@@ -8,9 +8,10 @@ from urllib.parse import urlsplit
 
 from vf.monitor import Probes
 
+MIN_RANDOM = 150  # random iterations run per shard whatever the wall-clock budget (floors must not depend on machine load)
 SHARDS = {"quick": 4, "thorough": 16}
 BUDGET = {"quick": 20, "thorough": 240}
-MIN_CASES = {"quick": 2000, "thorough": 30000}
+MIN_CASES = {"quick": 1200, "thorough": 30000}
 EXHAUSTIVE_CLAIM = True
 RULE = ("add-histories on a fresh HostnameTrieSet: every sequence of length <= 3 (quick) / <= 4 (thorough) over the 14 hostnames of depth <= 3 "
         "on labels {a,b} (thorough also <= 3 over 39 hostnames on {a,b,c}), then seeded random histories of 5-40 adds over realistic labels "
@@ -235,7 +236,7 @@ def run(ctx):
                 ctx.exhaustive_space("add-sequences of length %d over 39 hostnames (3 labels, depth<=3)" % L, n_here)
         rng = ctx.rng
         n = 0
-        while ctx.time_left() and n < (1500 if ctx.tier == "quick" else 200000):
+        while (ctx.time_left() or n < MIN_RANDOM) and n < (1500 if ctx.tier == "quick" else 200000):
             n += 1
             labs = rng.sample(REAL_LABELS, rng.randint(3, 7))
             def rh():
